@@ -41,8 +41,27 @@ def cutSchedule : List Bytes → Nat → List Step
   | [c], _ => [.append c, .parse]
   | c :: cs, m => (if m % 2 == 1 then [.append c, .parse] else [.append c]) ++ cutSchedule cs (m / 2)
 
-def obsJ (ids : List Nat) (obs : List (List Bytes × List Bytes)) (qf : List Bytes) : Json :=
+/-- number of junk octets in `data`: everything that is neither part of a returned packet nor of the
+    canonical residual -/
+def junkCount (ids : List Nat) (data : Bytes) : Nat :=
+  let r := scan ids data
+  data.length - r.1.flatten.length - (canonRest ids r.2).length
+
+/-- the relation the check compares: exactly when the octets in question contain no junk, in
+    canonical form otherwise -/
+def cmpRest (ids : List Nat) (fedSoFar r : Bytes) : Bytes :=
+  if junkCount ids fedSoFar == 0 then r else canonRest ids r
+
+/-- the octets fed before each parser call -/
+def fedAt : List Step → Bytes → List Bytes
+  | [], _ => []
+  | .append c :: s, acc => fedAt s (acc ++ c)
+  | .parse :: s, acc => acc :: fedAt s acc
+
+def obsJ (ids : List Nat) (steps : List Step) (obs : List (List Bytes × List Bytes)) (qf : List Bytes) : Json :=
   obj [("packets", jarr (obs.map fun o => jarr (o.1.map jh))),
+       ("rest_cmp", jarr ((obs.zip (fedAt steps [])).map fun (o, f) => jh (cmpRest ids f o.2.flatten))),
+       ("final_cmp", jh (cmpRest ids (fed steps) qf.flatten)),
        ("rest", jarr (obs.map fun o => jh o.2.flatten)),
        ("rest_canon", jarr (obs.map fun o => jh (canonRest ids o.2.flatten))),
        ("queue", jarr (obs.map fun o => jarr (o.2.map jh))),
@@ -56,13 +75,14 @@ def runOn (pids : Py (List PacketId)) (steps : List Step) :
   pure (ids, o)
 
 def ops : List (String × Handler) := [
-  -- a whole history on a new deque: per parser call the packets returned, the concatenation of the
-  -- deque's chunks afterwards (`rest`), its canonical form (`rest_canon`) and the chunks themselves
-  -- (`queue`, informative); `final` is the concatenation of the deque after the last step
+  -- a whole history on a new deque: per parser call the packets returned and the concatenation of the
+  -- deque's chunks afterwards (`rest`; `rest_canon` its canonical form; `rest_cmp` = `rest` when the
+  -- octets fed so far contain no junk, `rest_canon` otherwise — this is what is compared); `queue`:
+  -- the chunks themselves (informative); `final`/`final_cmp`: the deque after the last step
   ("sp_parse_run", fun j => do
       let pids ← getPids j "ids"
       let steps ← getSteps j "steps"
-      pure (res (fun (ids, obs, qf) => obsJ ids obs qf) (runOn pids steps))),
+      pure (res (fun (ids, obs, qf) => obsJ ids steps obs qf) (runOn pids steps))),
   -- the same for a stream cut at the positions given by the bit mask `cuts`, parser calls behind the
   -- chunks given by the bit mask `parses` and behind the last chunk
   ("sp_parse_cuts", fun j => do
@@ -71,7 +91,7 @@ def ops : List (String × Handler) := [
       let cuts ← getNat j "cuts"
       let parses ← getNat j "parses"
       let steps := cutSchedule (cutChunks stream cuts []) parses
-      pure (res (fun (ids, obs, qf) => obsJ ids obs qf) (runOn pids steps))),
+      pure (res (fun (ids, obs, qf) => obsJ ids steps obs qf) (runOn pids steps))),
   -- one buffer, one call
   ("sp_parse_buf", fun j => do
       let pids ← getPids j "ids"
@@ -82,6 +102,7 @@ def ops : List (String × Handler) := [
         pure (ps.map PacketId.raw, o)
       pure (res (fun (ids, o) =>
         obj [("packets", jarr (o.1.map jh)),
+             ("rest_cmp", jh (cmpRest ids raw o.2.flatten)),
              ("rest", jh o.2.flatten),
              ("rest_canon", jh (canonRest ids o.2.flatten))]) r)),
   -- constants the model hard-codes
